@@ -63,7 +63,7 @@ Definition spend_kind_eqb (a b : spend_kind) : bool :=
 
 Definition effect_eqb (a b : effect) : bool :=
   match a, b with
-  | EPersist s d, EPersist s' d' => seq s s' && data_eqb d d'
+  | EPersist s d k, EPersist s' d' k' => seq s s' && data_eqb d d' && Bool.eqb k k'
   | ESend p m, ESend p' m' => seq p p' && wire_eqb m m'
   | ERetransStart, ERetransStart | ERetransStop, ERetransStop | EArmTimer, EArmTimer
   | ERequestedSwapLog, ERequestedSwapLog => true
